@@ -742,6 +742,21 @@ def Reportable (s : St) : Loc → Prop
   | .dyn j => j < s.dyn.slots.length
   | .out => False
 
+theorem reportableB_sound {s : St} {l : Loc} (h : reportableB s l = true) : Reportable s l := by
+  cases l with
+  | win k j =>
+    simp only [reportableB] at h
+    cases hp : s.pools[k]? with
+    | none => rw [hp] at h; cases h
+    | some p => rw [hp] at h; exact ⟨p, hp, by simpa using h⟩
+  | dyn j => simpa [reportableB, Reportable] using h
+  | out => cases h
+
+theorem passOkB_sound {s : St} {ls : List Loc} (h : passOkB s ls = true) :
+    ls.Nodup ∧ (∀ l, l ∈ ls → Reportable s l) ∧ (dynOffs ls).Pairwise (fun a b => a < b) := by
+  simp only [passOkB, Bool.and_eq_true, decide_eq_true_eq, List.all_eq_true] at h
+  exact ⟨h.1.1, fun l hl => reportableB_sound (h.1.2 l hl), h.2⟩
+
 theorem Inv.live {s : St} (h : Inv s) {l : Loc} (hl : Reportable s l) : LiveNow s l := by
   cases l with
   | win k j =>
